@@ -35,4 +35,8 @@ VARIANTS = [
      'edits': [(H, "reference = - (10 * 36 ** (num_chars - 1) - 10 ** num_chars)", "reference = 10 ** num_chars - 10 * 36 ** (num_chars - 1)")]},
     {'name': 'revert-fix-F15-strip-all-whitespace', 'rule': 'C19.R2',
      'edits': [(H, 'input_string = input_string.strip(" ")', 'input_string = input_string.strip()')]},
+    {'name': 'blanks-stripped-again-after-the-sign', 'rule': 'C19.R2',
+     'edits': [('hybrid36.py', "        input_string = input_string[1:]\n    else:", "        input_string = input_string[1:].strip(\" \")\n    else:")]},
+    {'name': 'sign-test-on-unstripped-field', 'rule': 'C19.R2',
+     'edits': [('hybrid36.py', "    if input_string.startswith(\"-\"):", "    if original_input_string.startswith(\"-\"):")]},
 ]
